@@ -62,7 +62,7 @@ module.exports = mk({
       return { fam: 'perm', key: 'perm¦' + body.join('') + '¦' + l.pick.verb + '¦' + l.pick.cfg + '¦' + l.pick.file, code: `function main(a, b, c, s, o, h) { let x, y, i = 0; ${body.join(' ')} return x }`, config: cfg, file: l.pick.file, desc: 'perm' }
     })
     // the file name reported by the metrics: a few programs x several names x verbosity
-    for (const file of ['/p/app.js', 'rel/x.js', 'x.js', '/p/my file ñ.js', '<anonymous>']) for (const verb of [undefined, 'OFF', 'DEBUG']) for (const st of ['hooked_plus', 'num_plus', 'nested']) {
+    for (const file of ['/p/app.js', 'rel/x.js', 'x.js', '/p/my file ñ.js', '<anonymous>', './a.js', './lib/a.js', '././a.js', '../x.js', 'a/../b.js', '/p//double.js', 'C:\\x\\y.js', 'file:///p/a.js', ' lead.js', 'trail.js ', '/p/UPPER.JS', '/p/a.mjs', '/p/noext', '/p/a.js?x=1#h', '.hidden.js']) for (const verb of [undefined, 'OFF', 'DEBUG']) for (const st of ['hooked_plus', 'num_plus', 'nested']) {
       const cfg = Object.assign({}, C.FULL); if (verb !== undefined) cfg.telemetryVerbosity = verb
       r.stats.states++; r.stats.transitions++
       leaves.push({ fam: 'perm', key: 'file¦' + st + '¦' + verb + '¦' + file, code: `function main(a, b, c, s, o, h) { let x, y, i = 0; ${STMTS[st]} return x }`, config: cfg, file, desc: 'file' })
